@@ -623,7 +623,7 @@ def _helper_round(checker, rng):
 def _vectors(checker, rng):
 	from .common import REPO
 	ctx = checker.ctx
-	count = ctx.scale(12, 400)
+	count = ctx.scale(12, 150)
 	for network in ('symbol', 'nem'):
 		path = os.path.join(REPO, 'tests/vectors', network, 'crypto/3.test-derive-hkdf.json')
 		if os.path.exists(path) and os.path.getsize(path):
@@ -678,17 +678,17 @@ def run(ctx):
 	_vectors(checker, rng)
 	_helper_round(checker, rng)
 	checker.settle()
-	for _ in range(ctx.scale(30, 600)):
+	for _ in range(ctx.scale(30, 300)):
 		_shared_key_round(checker, rng)
 	checker.settle()
 	everything = 'thorough' == ctx.tier
-	for repeat in range(ctx.scale(2, 30)):
+	for repeat in range(ctx.scale(2, 12)):
 		for size in SIZES + ([rng.randrange(2, 300)] if repeat else []):
-			_symbol_message_round(checker, rng, size, everything and (size < 1024 or repeat < 3))
+			_symbol_message_round(checker, rng, size, everything and (size < 1024 or repeat < 1))
 			checker.settle()
 			_nem_message_round(checker, rng, size)
 			checker.settle()
-	for _ in range(ctx.scale(4, 60)):
+	for _ in range(ctx.scale(4, 25)):
 		_delegation_round(checker, rng, everything)
 		checker.settle()
 
